@@ -42,6 +42,11 @@ def trees():
     # a user-defined marker (documented extension point) between the transfer and the materialization
     m10 = ("mat", ("tag", ("xfer", selx, "it2")), "m10")
     out["user-marker"] = (m10, {"A": ("sort", m10, ((A_, False), (B_, True))), "B": ("xfer", ("dedup", m10), "it1")}, True)
+    # ... and two of them stacked, in an iteration engine and (where the engine adds SELECT markers of its own) in the SQL engine
+    m13 = ("mat", ("tag", ("tag", ("xfer", selx, "it2"))), "m13")
+    out["user-markers-stacked"] = (m13, {"A": ("sort", m13, ((A_, False), (B_, True))), "B": ("xfer", ("dedup", m13), "it1")}, True)
+    m14 = ("mat", ("tag", ("xfer", selx, "sq")), "m14")
+    out["user-marker-sql"] = (m14, {"A": ("sel", m14, ("lt", A_, B_)), "B": ("xfer", ("proj", m14, ("a",)), "it1")}, True)
     # a materialization requested on a tree that an earlier process() returned: its transfer already carries a payload, and that
     # payload is a lazy iterable because no materialization followed the transfer then (the hook contract allows that)
     m11 = ("mat", ("proc", ("xfer", selx, "it2")), "m11")
